@@ -264,7 +264,7 @@ fn main() {
             pairs.push((a, b, "style=exhaustive nulls=enum nulls2=enum".to_string()));
         }
     }
-    let nrand = if thorough { 2500 } else { 260 };
+    let nrand = if thorough { 1200 } else { 260 };
     for i in 0..nrand {
         let len = if i % 3 == 0 { rng.range(3, 8) } else { rng.range(3, 24) } as usize;
         pairs.push(gen_pair(&mut rng, len));
@@ -279,12 +279,12 @@ fn main() {
         let ints = is_int_series(a) && is_int_series(b);
         // exhaustive scope: every (w, mp) up to len 2; at len 3 (thorough) every w, a rotating third of the functions
         for (ci, (w, mp)) in wmp_choices(&mut rng, len, small, len <= 2).into_iter().enumerate() {
-            // thorough, exhaustive length 3: a rotating sixth of the (w, mp) configurations per pair
-            if small && len >= 3 && (pi + ci) % 6 != 0 { continue; }
+            // thorough, exhaustive length 3: a rotating 1/36 of the (w, mp) configurations per pair
+            if small && len >= 3 && (pi + ci) % 36 != 0 { continue; }
             let mp_coq = coq_opt(&mp, |m| coq_nat(*m));
             for (fi, fname) in FN2.iter().enumerate() {
                 if small {
-                    let keep = if thorough { len <= 2 || (pi + ci + fi) % 3 == 0 } else { len <= 1 || (pi + ci + fi) % 3 == 0 };
+                    let keep = len <= 1 || (pi + ci + fi) % 3 == 0;
                     if !keep { continue; }
                 } else if !rng.chance(1, 2) {
                     continue;
@@ -386,12 +386,12 @@ fn main() {
             series.push((xs, "style=exhaustive nulls=enum".to_string()));
         }
     }
-    let nrand1 = if thorough { 2000 } else { 220 };
+    let nrand1 = if thorough { 1200 } else { 220 };
     for i in 0..nrand1 {
         let len = if i % 3 == 0 { rng.range(3, 8) } else { rng.range(3, 24) } as usize;
         series.push(gen_trend(&mut rng, len));
     }
-    for (xs, stags) in series.iter() {
+    for (si, (xs, stags)) in series.iter().enumerate() {
         let len = xs.len();
         let small = stags.contains("exhaustive");
         let xs_coq = coq_fs(xs);
@@ -399,7 +399,9 @@ fn main() {
         let xo_coq = coq_os(&xo);
         let m = maxabs(xs);
         let ints = is_int_series(xs);
-        for (w, mp) in wmp_choices(&mut rng, len, small, len <= 3) {
+        for (ci, (w, mp)) in wmp_choices(&mut rng, len, small, len <= 3).into_iter().enumerate() {
+            // thorough, exhaustive length 4: a rotating sixth of the (w, mp) configurations per series
+            if small && len >= 4 && (si + ci) % 6 != 0 { continue; }
             let mp_coq = coq_opt(&mp, |m| coq_nat(*m));
             for (k, fname) in FN1.iter().enumerate() {
                 if !small && !rng.chance(1, 2) {
